@@ -1054,8 +1054,8 @@ func ruleTaintSize(c *Ctx, rule string, shorts ...string) {
 							}
 						}
 					case *ssa.Phi:
-						for _, e := range x.Edges {
-							if tainted[e] {
+						for i, e := range x.Edges {
+							if tainted[e] && !boundedOnEdge(e, x.Block().Preds[i], x.Block()) {
 								mark(x)
 							}
 						}
@@ -1508,7 +1508,8 @@ func inModulePkg(p *ssa.Package) bool {
 func rulePoolDrain(c *Ctx, rule string) {
 	clear := c.fn("morass", "(*Morass).Clear")
 	recvs := 0
-	for _, b := range clear.Blocks {
+	for _, cf := range pkgReach(clear) {
+	for _, b := range cf.Blocks {
 		for _, ins := range b.Instrs {
 			switch x := ins.(type) {
 			case *ssa.UnOp:
@@ -1523,6 +1524,7 @@ func rulePoolDrain(c *Ctx, rule string) {
 				}
 			}
 		}
+	}
 	}
 	// sends that are not matched inside the cycle: count sends on pool in the package
 	sends := 0
@@ -1857,8 +1859,20 @@ func ruleSignRound(c *Ctx, rule string) {
 							}
 						}
 					case *ssa.Call:
-						if g := x.Call.StaticCallee(); g != nil && g.Pkg != nil && g.Pkg.Pkg.Path() == "math" && (g.Name() == "Round" || g.Name() == "RoundToEven") {
-							round = true
+						if g := x.Call.StaticCallee(); g != nil && g.Pkg != nil && g.Pkg.Pkg.Path() == "math" {
+							switch g.Name() {
+							case "Round", "RoundToEven":
+								round = true
+							case "Floor", "Ceil":
+								// Floor(x+0.5) and Ceil(x-0.5) round to nearest for either sign
+								if bo, ok := x.Call.Args[0].(*ssa.BinOp); ok {
+									if k, ok := bo.Y.(*ssa.Const); ok && k.Value != nil && k.Value.ExactString() == "1/2" {
+										if (g.Name() == "Floor" && bo.Op == token.ADD) || (g.Name() == "Ceil" && bo.Op == token.SUB) {
+											round = true
+										}
+									}
+								}
+							}
 						}
 					}
 				}
@@ -1877,4 +1891,45 @@ func ruleSignRound(c *Ctx, rule string) {
 	if n == 0 {
 		c.und(rule, "alphabet/float-to-Qsolexa", token.NoPos, "no float to Qsolexa conversion found")
 	}
+}
+
+// factsOnEdge: the branch facts that hold when control goes from pred to succ.
+func factsOnEdge(pred, succ *ssa.BasicBlock) []branchFact {
+	facts := branchesAt(pred)
+	if ifi, ok := pred.Instrs[len(pred.Instrs)-1].(*ssa.If); ok {
+		if bo, ok := ifi.Cond.(*ssa.BinOp); ok {
+			for e, s := range pred.Succs {
+				if s == succ {
+					facts = append(facts, branchFact{bo, e})
+				}
+			}
+		}
+	}
+	return facts
+}
+
+// boundedOnEdge: v is bounded below and above whenever control flows pred -> succ
+// (the clamp idiom: `if n < 0 || n > max { n = max }` keeps n only on the bounded edge).
+func boundedOnEdge(v ssa.Value, pred, succ *ssa.BasicBlock) bool {
+	lower, upper := false, false
+	for _, bf := range factsOnEdge(pred, succ) {
+		var op token.Token
+		switch {
+		case bf.cond.X == v:
+			op = effectiveOp(bf, true)
+		case bf.cond.Y == v:
+			op = effectiveOp(bf, false)
+		default:
+			continue
+		}
+		switch op {
+		case token.GEQ, token.GTR:
+			lower = true
+		case token.LSS, token.LEQ:
+			upper = true
+		case token.EQL:
+			lower, upper = true, true
+		}
+	}
+	return lower && upper
 }
